@@ -80,13 +80,25 @@ def _sign(a):
 
 
 def _max2(a, b):
+    """np.maximum: NaN propagates.  Inside an exploration the choice forks (keeps terms free of nested If/division)"""
     a, b = lift(a), lift(b)
-    # numpy maximum propagates NaN
+    if Explorer.cur is not None:
+        if bool(a.isnan()):
+            return a
+        if bool(b.isnan()):
+            return b
+        return a if bool(a >= b) else b
     return SV(z3.If(a.z >= b.z, a.z, b.z), z3.simplify(z3.Or(a.nan, b.nan)))
 
 
 def _min2(a, b):
     a, b = lift(a), lift(b)
+    if Explorer.cur is not None:
+        if bool(a.isnan()):
+            return a
+        if bool(b.isnan()):
+            return b
+        return a if bool(a <= b) else b
     return SV(z3.If(a.z <= b.z, a.z, b.z), z3.simplify(z3.Or(a.nan, b.nan)))
 
 
